@@ -217,12 +217,13 @@ def scenarios(run: Run, rng):
         if fmt in ("xyz", "pdb", "mol2", "sdf"):
             add(fmt, "dump_one", frames=[("wfail", None)], existed=True)
         # write faults: k-th write call raises
-        seed = rng.randint(0, 10**9)
-        nw = count_writes(fmt, "dump_one", 1, seed)
-        ks = range(1, nw + 1) if thorough else sorted({1, 2, max(1, nw // 2), nw})
-        for k in ks:
-            tasks.append((len(tasks), fmt, "dump_one", "explicit", False, bool(k % 2), [("ok", None)], False, False, k,
-                          False, seed, False))
+        for _obj in range(4 if thorough else 1):     # several objects: the number of write calls depends on the object
+            seed = rng.randint(0, 10**9)
+            nw = count_writes(fmt, "dump_one", 1, seed)
+            ks = range(1, nw + 1) if thorough else sorted({1, 2, max(1, nw // 2), nw})
+            for k in ks:
+                tasks.append((len(tasks), fmt, "dump_one", "explicit", False, bool(k % 2), [("ok", None)], False, False, k,
+                              False, seed, False))
     kinds_many = ["ok", "missing", "crash", "wfail"]
     for fmt in O.DUMP_MANY:
         req = required_of(fmt, "dump_many")
@@ -233,7 +234,7 @@ def scenarios(run: Run, rng):
             for gen in (False, True):
                 add(fmt, "dump_many", existed=existed, frames=[], iter_gen=gen)                    # empty sequence
                 add(fmt, "dump_many", existed=existed, frames=[], iter_raises=True, iter_gen=gen)  # raises at first item
-        maxf = 4 if thorough else 3
+        maxf = 5 if thorough else 3
         for n in range(1, maxf + 1):
             for pos in range(n):
                 for bad in ("missing", "crash", "wfail"):
@@ -248,12 +249,13 @@ def scenarios(run: Run, rng):
             add(fmt, "dump_many", frames=[("missing", list(s)), ("ok", None)], existed=True)
             add(fmt, "dump_many", frames=[("ok", None), ("missing", list(s))], existed=True)
         add(fmt, "dump_many", frames=[("ok", None)] * 2, open_fails=True)
-        seed = rng.randint(0, 10**9)
-        nw = count_writes(fmt, "dump_many", 3, seed)
-        ks = range(1, nw + 1) if thorough else sorted({1, max(1, nw // 3), max(1, nw // 3) + 1, max(1, 2 * nw // 3), nw})
-        for k in ks:
-            tasks.append((len(tasks), fmt, "dump_many", "explicit", False, bool(k % 2), [("ok", None)] * 3, False,
-                          bool(k % 3 == 0), k, False, seed, False))
+        for _obj in range(4 if thorough else 1):
+            seed = rng.randint(0, 10**9)
+            nw = count_writes(fmt, "dump_many", 3, seed)
+            ks = range(1, nw + 1) if thorough else sorted({1, max(1, nw // 3), max(1, nw // 3) + 1, max(1, 2 * nw // 3), nw})
+            for k in ks:
+                tasks.append((len(tasks), fmt, "dump_many", "explicit", False, bool(k % 2), [("ok", None)] * 3, False,
+                              bool(k % 3 == 0), k, False, seed, False))
     for prog in ("gaussian", "orca"):
         for sel in ("explicit", "unknown"):
             for existed in (False, True):
